@@ -72,7 +72,17 @@ def replay_stream(words, acc, shadow, counters, region_alias=None):
             desc = "%s/%s#%d" % (F.kind, F.sub, ev.op.index)
         else:
             continue
-        for region, iv in fp.reads.items():
+        copied_undefined = None
+        if ev.kind == "dma":
+            # a DMA only moves bytes: copying undefined bytes (e.g. the alignment padding behind a tensor whose size is not a multiple of 16) is not a
+            # use; the undefinedness travels with the copy and is reported when an operation consumes the destination bytes
+            (sr, siv), (dr, div) = fp.parts["dma_src"], fp.parts["dma_dst"]
+            miss = shadow.missing(sr, siv)
+            counters["bytes_read_checked"] = counters.get("bytes_read_checked", 0) + footprint.total_bytes(siv)
+            if len(miss) and len(siv) == 1 and len(div) == 1:
+                copied_undefined = (dr, miss - int(siv[0, 0]) + int(div[0, 0]))
+                counters["dma_copies_of_undefined_padding"] = counters.get("dma_copies_of_undefined_padding", 0) + 1
+        for region, iv in ({} if (ev.kind == "dma" and (copied_undefined is not None or not len(shadow.missing(*fp.parts["dma_src"])))) else fp.reads).items():
             if region == "shram" and ev.kind == "op":
                 counters["lut_reads"] = counters.get("lut_reads", 0) + 1
             counters["bytes_read_checked"] = counters.get("bytes_read_checked", 0) + footprint.total_bytes(iv)
@@ -89,6 +99,8 @@ def replay_stream(words, acc, shadow, counters, region_alias=None):
                     shadow.undefine("shram", iv)  # buffers overwrite whatever table lived there
             else:
                 shadow.define(region, iv)
+        if copied_undefined is not None:
+            shadow.undefine(*copied_undefined)
         counters["ops_replayed"] = counters.get("ops_replayed", 0) + 1
     return findings
 
